@@ -49,6 +49,16 @@ def chosen(rnd, tier):
         proto = rnd.choice([(1, 3), (1, 5), (1, 99), (2, 0), (2, 1)])
         cases.append({'others': [list(o) for o in others], 'parts': {'major': proto[0], 'minor': proto[1], 'software': list(sw), 'comments': list(cm)},
                       'eol': rnd.choice(['crlf', 'lf'])})
+    # long lines: pre-banner lines and identification strings well beyond 255 bytes, some carrying a quoted identification string
+    # at an offset where a reader that chops lines into pieces would start a new piece
+    for k, (ln, decoy_at) in enumerate(((256, None), (300, None), (600, 255), (700, 510), (1000, None))):
+        line = bytearray(b'L' * ln)
+        if decoy_at is not None:
+            q = b'SSH-2.0-Decoy_1.0 quoted'
+            line[decoy_at:decoy_at + len(q)] = q
+        cases.append({'others': [list(bytes(line))], 'parts': {'major': 2, 'minor': 0, 'software': list(b'OpenSSH_9.%d' % k), 'comments': list(b'')}, 'eol': 'crlf' if k % 2 else 'lf'})
+    cases.append({'others': [], 'parts': {'major': 2, 'minor': 0, 'software': list(b'OpenSSH_8.9p1'), 'comments': list(b' '.join([b'word%d' % i for i in range(60)]))}, 'eol': 'crlf'})
+    cases.append({'others': [list(b'x' * 254), list(b'y' * 255), list(b'z' * 257)], 'parts': {'major': 2, 'minor': 0, 'software': list(b'dropbear_2022.83'), 'comments': list(b'')}, 'eol': 'crlf'})
     return cases
 
 
